@@ -43,6 +43,20 @@ type pMethod struct {
 	Annots  []pAnnot `json:"annots"`
 	Params  []pParam `json:"params"`
 	Results []string `json:"results"`
+	Recv    string   `json:"recv,omitempty"` // "" = (c *T); "anon-ptr" = (*T); "anon-val" = (T); "blank" = (_ *T)
+}
+
+// recvText: the receiver clause of a controller method
+func recvText(ctrl, recv string) string {
+	switch recv {
+	case "anon-ptr":
+		return "(*" + ctrl + ")"
+	case "anon-val":
+		return "(" + ctrl + ")"
+	case "blank":
+		return "(_ *" + ctrl + ")"
+	}
+	return "(c *" + ctrl + ")"
 }
 
 type pController struct {
@@ -309,7 +323,7 @@ func writeProject(p pProject, dir string) (map[string]string, error) {
 					return ", " + strings.Join(args, ", ")
 				}())
 			}
-			mb.WriteString(fmt.Sprintf("%sfunc (c *%s) %s(%s)%s {\n\t%s%s\n}\n", ind, c.Name, m.Name, strings.Join(ps, ", "), res, pre, zeroReturn(m.Results)))
+			mb.WriteString(fmt.Sprintf("%sfunc %s %s(%s)%s {\n\t%s%s\n}\n", ind, recvText(c.Name, m.Recv), m.Name, strings.Join(ps, ", "), res, pre, zeroReturn(m.Results)))
 			mf.decls = append(mf.decls, mb.String())
 		}
 	}
@@ -487,7 +501,7 @@ func entitySpans(p pProject, texts map[string]string) []pSpan {
 			out = append(out, pSpan{c.Name, "", c.Pkg + "/" + c.File, a, b})
 		}
 		for _, m := range c.Methods {
-			if a, b, ok := find(c.Pkg+"/"+m.File, "func (c *"+c.Name+") "+m.Name+"("); ok {
+			if a, b, ok := find(c.Pkg+"/"+m.File, "func "+recvText(c.Name, m.Recv)+" "+m.Name+"("); ok {
 				out = append(out, pSpan{c.Name, m.Name, c.Pkg + "/" + m.File, a, b})
 			}
 		}
